@@ -25,7 +25,8 @@ def runWF (feats : Features) (ty : String) (fmt : Format) (bitsHex : String) (o 
     match writeFloatCur feats f fmt o false bits ([0], 0) buf with
     | .other .radix signLen =>
       let mag := bits % f.signBit
-      match WriteRadix.writeFloat WriteRadix.repoHasCarryFix feats f fmt o mag (buf.length - signLen) with
+      match WriteRadix.writeFloat WriteRadix.repoHasCarryFix feats f fmt o mag (buf.length - signLen)
+          WriteRadix.repoHasWindowFix WriteRadix.repoHasMinPadFix with
       | .ok text =>
         let out := signOf feats f fmt bits ++ text
         if out.length > buf.length then some "panic"
